@@ -9,6 +9,8 @@ from pvc.core import CheckerError
 from pvc.pyexec import PyExec, PState, Record, Opaque, content_token, source_token
 
 AF = "phonopy/api_phonopy.py"
+# operations that are not meant to change the force constants: their content is part of the frame
+KEEPS_FC = ("nac_params.setter", "masses.setter", "_set_dynamical_matrix")
 
 
 def _find(mod, cls, name, setter=False):
@@ -35,11 +37,13 @@ def class_invariant(run):
         for dm_present in (False, True):
             for gv_present in ((False, True) if dm_present else (False,)):
                 for nac_present in (False, True):
-                    tag = "[%s%s;dm=%s,gv=%s,nac=%s]" % (name, ".setter" if is_setter else "", dm_present, gv_present, nac_present)
-                    _one(run, mod, m, tag, mkargs, dm_present, gv_present, nac_present)
+                    for scaled in (False, True):
+                        tag = "[%s%s;dm=%s,gv=%s,nac=%s%s]" % (name, ".setter" if is_setter else "", dm_present, gv_present, nac_present,
+                                                               ",scale" if scaled else "")
+                        _one(run, mod, m, tag, mkargs, dm_present, gv_present, nac_present, scaled)
 
 
-def _one(run, mod, m, tag, mkargs, dm_present, gv_present, nac_present):
+def _one(run, mod, m, tag, mkargs, dm_present, gv_present, nac_present, scaled=False):
     pref = AF + ":Phonopy" + tag
     st = PState()
     fc = Opaque("force constants")
@@ -49,19 +53,22 @@ def _one(run, mod, m, tag, mkargs, dm_present, gv_present, nac_present):
     sup = st.new(Record("Supercell", {"u2s_map": Opaque("u2s")}))
     unit = st.new(Record("PhonopyAtoms", {}))
 
-    def mk_dm(st_, fc_, sc_, pr_, nac_):
+    def mk_dm(st_, fc_, sc_, pr_, nac_, scale_=None):
         # contract of get_dynamical_matrix (phonopy/harmonic/dynamical_matrix.py), as far as C15 needs it:
         #  - the object keeps its own force-constant array (DynamicalMatrix._set_force_constants may copy) and reads
         #    it on every run; with NAC parameters (DynamicalMatrixGL) data derived from it is cached after construction
         #  - NAC parameters are consumed at construction
         #  - it keeps references to the supercell and primitive cell objects and reads their masses on every run
         own = pyexec.opaque_copy(st_, fc_, "force-constant array kept by the dynamical matrix")
-        rec = {"force_constants": own, "nac_built_from": (source_token(st_, nac_) if isinstance(nac_, Opaque) else None),
+        if scale_ is not None:
+            #  - with frequency_scale_factor the array kept is fc * factor**2 (get_dynamical_matrix), i.e. other content
+            pyexec.BUF_ORIGIN[own.buf] = ("scaled", content_token(st_, fc_))
+        rec = {"force_constants": own, "fc_built_from": content_token(st_, fc_), "scaled": scale_ is not None, "nac_built_from": (source_token(st_, nac_) if isinstance(nac_, Opaque) else None),
                "with_nac": nac_ is not None, "primitive": pr_, "supercell": sc_}
         return st_.new(Record("DynamicalMatrix", rec))
 
     def new_dm(ex, st_, args, kwargs):
-        return mk_dm(st_, args[0], args[1], args[2], args[3])
+        return mk_dm(st_, args[0], args[1], args[2], args[3], args[4] if len(args) > 4 else kwargs.get("frequency_scale_factor"))
 
     def new_gv(ex, st_, args, kwargs):
         return st_.new(Record("GroupVelocity", {"dm": args[0]}))
@@ -89,17 +96,18 @@ def _one(run, mod, m, tag, mkargs, dm_present, gv_present, nac_present):
              "new:symmetrize_borns_and_epsilon": lambda ex, st_, a, k: (Opaque("borns"), Opaque("epsilon"))}
     dm = gv = None
     attrs = {"_force_constants": fc, "_nac_params": nac, "_primitive": prim, "_supercell": sup, "_unitcell": unit,
-             "_is_symmetry": z3.Bool("is_symmetry"), "_symprec": z3.Real("symprec"), "_frequency_scale_factor": Opaque("scale"),
+             "_is_symmetry": z3.Bool("is_symmetry"), "_symprec": z3.Real("symprec"), "_frequency_scale_factor": (z3.Real("frequency_scale_factor") if scaled else None),
              "_dynamical_matrix_decimals": None, "_log_level": 0, "_gv_delta_q": Opaque("gv_delta_q"), "_factor": z3.Real("factor"),
              "_symmetry": Opaque("symmetry"), "_primitive_symmetry": Opaque("primitive symmetry"),
              "_dynamical_matrix": None, "_group_velocity": None, "_dataset": Opaque("displacement dataset"),
              "_force_constants_decimals": None}
     self_ref = st.new(Record("Phonopy", attrs))
     if dm_present:
-        dm = mk_dm(st, fc, sup, prim, nac)
-        fc = st.heap[dm.id].attrs["force_constants"]
+        dm = mk_dm(st, fc, sup, prim, nac, z3.Real("frequency_scale_factor") if scaled else None)
         st.heap[self_ref.id].attrs["_dynamical_matrix"] = dm
-        st.heap[self_ref.id].attrs["_force_constants"] = fc      # as left by _set_dynamical_matrix
+        if not scaled:
+            fc = st.heap[dm.id].attrs["force_constants"]
+            st.heap[self_ref.id].attrs["_force_constants"] = fc      # as left by _set_dynamical_matrix
     if gv_present:
         gv = st.new(Record("GroupVelocity", {"dm": dm}))
         st.heap[self_ref.id].attrs["_group_velocity"] = gv
@@ -108,7 +116,8 @@ def _one(run, mod, m, tag, mkargs, dm_present, gv_present, nac_present):
     outs = ex.call_function(st, m, mkargs(st), self_ref=self_ref, cls="Phonopy")
     nret = 0
     mname = tag[1:].split(";")[0]
-    rp = (lambda model, a=(mname, dm_present, gv_present, nac_present): replay_history(*a))
+    fc_before = content_token(st, st.heap[self_ref.id].attrs["_force_constants"])
+    rp = (lambda model, a=(mname, dm_present, gv_present, nac_present, scaled): replay_history(*a))
     for (s2, fl, v) in outs:
         if fl != "return":
             continue          # refusal (exception): nothing is answered from a stale state
@@ -121,8 +130,9 @@ def _one(run, mod, m, tag, mkargs, dm_present, gv_present, nac_present):
             d = s2.heap[cur_dm.id].attrs
             cur_fc, cur_nac = rec["_force_constants"], rec["_nac_params"]
             fails = []
-            if not isinstance(cur_fc, Opaque) or content_token(s2, cur_fc) != content_token(s2, d["force_constants"]):
-                fails.append("its force-constant array does not hold the current force constants")
+            want_fc = ("scaled", content_token(s2, cur_fc)) if (d["scaled"] and isinstance(cur_fc, Opaque)) else (content_token(s2, cur_fc) if isinstance(cur_fc, Opaque) else None)
+            if want_fc is None or want_fc != content_token(s2, d["force_constants"]):
+                fails.append("its force-constant array does not hold the current force constants%s" % (" times the scale factor squared" if d["scaled"] else ""))
             if d["with_nac"] and content_token(s2, d["force_constants"]) != source_token(s2, d["force_constants"]):
                 fails.append("its force constants were changed in place after it was built with NAC parameters (cached short-range part)")
             if (cur_nac is not None) != d["with_nac"] or (isinstance(cur_nac, Opaque) and content_token(s2, cur_nac) != d["nac_built_from"]):
@@ -132,6 +142,10 @@ def _one(run, mod, m, tag, mkargs, dm_present, gv_present, nac_present):
             ok_dm = not fails
             why = "cached dynamical matrix answers from the current force constants / NAC parameters / cells" + (": " + "; ".join(fails) if fails else "")
         run.sink.add(pref, "invariant", list(s2.pc), z3.BoolVal(bool(ok_dm)), meta={"label": why}, replay=rp)
+        if mname in KEEPS_FC:
+            now = content_token(s2, rec["_force_constants"]) if isinstance(rec["_force_constants"], Opaque) else None
+            run.sink.add(pref, "frame", list(s2.pc), z3.BoolVal(now == fc_before), replay=rp, meta={
+                "label": "%s leaves the content of the force constants unchanged (%s -> %s)" % (mname, fc_before, now)})
         ok_gv = cur_gv is None or (cur_dm is not None and s2.heap[cur_gv.id].attrs["dm"].id == cur_dm.id)
         run.sink.add(pref, "invariant", list(s2.pc), z3.BoolVal(bool(ok_gv)),
                      meta={"label": "cached group-velocity object refers to the current dynamical matrix"}, replay=rp)
@@ -164,8 +178,8 @@ class Cell:                       # stands for Primitive / Supercell / PhonopyAt
     def set_masses(self, m): self._m = np.array(m, dtype=float)
 
 class DM:                          # contract of get_dynamical_matrix as used by C15 (see mk_dm)
-    def __init__(self, fc, sc, pc, nac, *a, **k):
-        self.force_constants = np.array(fc, dtype=float)             # own array, read on every run
+    def __init__(self, fc, sc, pc, nac, scale=None, *a, **k):
+        self.force_constants = np.array(fc, dtype=float) * (1.0 if scale is None else scale ** 2)   # own array, read on every run
         self.nac = copy.deepcopy(nac)                                # consumed at construction
         self.cache = self.force_constants.copy() if nac is not None else None   # GL short-range part
         self.pc, self.sc = pc, sc
@@ -193,12 +207,12 @@ def same(a, b):
         return a is None and b is None
     return np.shape(a) == np.shape(b) and np.allclose(a, b)
 
-def make(dm, gv, nac, is_symmetry):
+def make(dm, gv, nac, is_symmetry, scale=None):
     o = api.Phonopy.__new__(api.Phonopy)
     o._primitive, o._supercell, o._unitcell = Cell(2), Cell(2), Cell(2)
     o._force_constants = np.arange(36.0).reshape(2, 2, 3, 3)
     o._nac_params = {"born": np.ones((2, 3, 3)), "dielectric": np.eye(3), "factor": 14.4} if nac else None
-    o._is_symmetry, o._symprec, o._frequency_scale_factor, o._dynamical_matrix_decimals = is_symmetry, 1e-5, None, None
+    o._is_symmetry, o._symprec, o._frequency_scale_factor, o._dynamical_matrix_decimals = is_symmetry, 1e-5, scale, None
     o._log_level, o._gv_delta_q, o._factor = 0, None, 1.0
     o._symmetry = o._primitive_symmetry = None
     o._dataset = {"first_atoms": [{"forces": np.zeros((2, 3)), "displacement": [0.01, 0, 0], "number": 0}]}
@@ -212,8 +226,9 @@ def make(dm, gv, nac, is_symmetry):
         o._group_velocity = GV(o._dynamical_matrix)
     return o
 
-def history(method, dm, gv, nac, is_symmetry):
-    o = make(dm, gv, nac, is_symmetry)
+def history(method, dm, gv, nac, is_symmetry, scale=None):
+    o = make(dm, gv, nac, is_symmetry, scale)
+    fc_before = np.array(o._force_constants)
     try:
         if method == "force_constants.setter": o.force_constants = np.ones((2, 2, 3, 3))
         elif method == "nac_params.setter": o.nac_params = {"born": 2 * np.ones((2, 3, 3)), "dielectric": 3 * np.eye(3), "factor": 14.4}
@@ -229,7 +244,7 @@ def history(method, dm, gv, nac, is_symmetry):
         return {"refused": repr(e)[:200]}
     bad = []
     if o._dynamical_matrix is not None:
-        fresh = make(False, False, nac, is_symmetry)
+        fresh = make(False, False, nac, is_symmetry, scale)
         fresh._primitive, fresh._supercell = o._primitive, o._supercell
         fresh._force_constants = np.array(o._force_constants); fresh._nac_params = copy.deepcopy(o._nac_params)
         fresh._set_dynamical_matrix()
@@ -237,28 +252,31 @@ def history(method, dm, gv, nac, is_symmetry):
         for nm, g, w in zip(("force constants", "NAC parameters", "masses"), got, want):
             if not same(g, w):
                 bad.append("dynamical matrix answers with stale " + nm)
+    if method in KEEPS and not same(fc_before, o._force_constants):
+        bad.append("force constants changed by an operation that does not set them")
     if o._group_velocity is not None and o._group_velocity.dm is not o._dynamical_matrix:
         bad.append("group-velocity object refers to a replaced dynamical matrix")
     return {"violations": bad}
 
+KEEPS = ("nac_params.setter", "masses.setter")
 out = []
 for sym in (True, False):
-    r = history(METHOD, DM_, GV_, NAC_, sym)
+    r = history(METHOD, DM_, GV_, NAC_, sym, SCALE_)
     out.append({"is_symmetry": sym, "result": r})
 print(json.dumps(out))
 """
 
 
-def replay_history(method, dm, gv, nac):
+def replay_history(method, dm, gv, nac, scaled=False):
     """the real method of phonopy/api_phonopy.py run on a Phonopy object whose collaborators are stand-ins that
     implement exactly the contracts assumed by the invariant (in-place edits, own fc array, NAC consumed at build)"""
     from pvc import creplay
     import json
-    code = REPLAY.replace("METHOD", repr(method)).replace("DM_", repr(dm)).replace("GV_", repr(gv)).replace("NAC_", repr(nac))
+    code = REPLAY.replace("METHOD", repr(method)).replace("DM_", repr(dm)).replace("GV_", repr(gv)).replace("NAC_", repr(nac)).replace("SCALE_", "1.5" if scaled else "None")
     rc, out, err = creplay.py_eval(code)
     if rc != 0:
         return {"reproduced": False, "reason": err[-600:]}
     res = json.loads(out.strip().splitlines()[-1])
     bad = [r for r in res if r["result"] and r["result"].get("violations")]
-    return {"reproduced": bool(bad), "history": "Phonopy state dm=%s gv=%s nac=%s; then %s; then query" % (dm, gv, nac, method),
+    return {"reproduced": bool(bad), "history": "Phonopy state dm=%s gv=%s nac=%s%s; then %s; then query" % (dm, gv, nac, ", frequency_scale_factor=1.5" if scaled else "", method),
             "real_code": res, "expected": "answers equal those of an object freshly built from the final state"}
